@@ -17,8 +17,10 @@ import multiprocessing
 
 VERIF = os.path.dirname(os.path.dirname(os.path.abspath(__file__)))
 KNOWN = os.path.join(VERIF, 'known_findings.jsonl')
-REPLAYS = os.path.join(VERIF, 'replays')
-EVIDENCE = os.path.join(VERIF, 'evidence')
+# self-tests against deliberately broken trees redirect these, so that they never overwrite the
+# evidence and replay files that describe /repo itself
+REPLAYS = os.environ.get('VERIF_REPLAY_DIR') or os.path.join(VERIF, 'replays')
+EVIDENCE = os.environ.get('VERIF_EVIDENCE_DIR') or os.path.join(VERIF, 'evidence')
 
 ENGINES = {'C07': 'kktsim', 'C09': 'isosim', 'C10': 'faultsim', 'C13': 'opsim',
            'C15': 'densesim', 'C16': 'sparsesim', 'C20': 'lifesim'}
